@@ -208,30 +208,9 @@ def run(ctx):
             txt = norm(tgt)
             gs = guards_of(n, cb)
             if txt == f'{node}.parts' and isinstance(n, ast.Call) and n.func.attr == 'pop':
-                ok_len = any(pol and is_len_gt1(t, txt) for t, pol in gs)
-                eq = [t for t, pol in gs if pol and isinstance(t, ast.Compare) and isinstance(t.ops[0], ast.Eq) and f'{txt}[0]' in norm(t) and dbparam in {x.id for x in ast.walk(t) if isinstance(x, ast.Name)}]
-                foreign = []
-                for t, pol in gs:
-                    if isinstance(t, ast.Call) and dotted(t.func) == 'isinstance' and norm(t.args[0]) == node:
-                        continue
-                    names = {x.id for x in ast.walk(t) if isinstance(x, ast.Name)} - {'len', 'isinstance', 'str', node, dbparam, 'Identifier', 'ast'}
-                    if names:
-                        foreign.append((norm(t), sorted(names)))
-                ctx.ob('C11.rewrite-write-set', 'strip:guards', ok_len and bool(eq),
-                       f'the qualifier is removed without the guard len({txt}) > 1 and {txt}[0].lower() == {dbparam}', file=QP, line=n.lineno)
-                ctx.ob('C11.rewrite-write-set', 'strip:own-parts-only', not foreign,
-                       f'whether the qualifier of an identifier is removed depends on {foreign}: the pushed query then differs from the original by more '
-                       f'(or less) than the integration qualifier - some identifiers keep `{dbparam}.` and do not resolve on the integration',
-                       file=QP, line=n.lineno, witness='select int1.t.a from int1.t join int1.u as int1 on ...')
+                pass        # when and what is removed: decided by the truth table (C11.rewrite-table)
             elif txt == f'{node}.alias' and isinstance(n, ast.Assign):
-                conds = ' && '.join(('' if pol else 'not ') + norm(t) for t, pol in gs)
-                ok = any(pol and norm(t) == 'is_target' for t, pol in gs) and any(pol and norm(t) == f'{node}.alias is None' for t, pol in gs)
-                val_ok = isinstance(n.value, ast.Call) and (dotted(n.value.func) or '').endswith('Identifier') and f'{node}.parts[-1]' in norm(n.value)
-                ctx.ob('C11.rewrite-write-set', 'alias:guards', ok,
-                       f'an alias is added outside `is_target and {node}.alias is None` (guards: {conds}): an existing alias is overwritten or a '
-                       f'non-target gets an alias', file=QP, line=n.lineno)
-                ctx.ob('C11.rewrite-write-set', 'alias:value', val_ok,
-                       f'the added alias `{norm(n.value)}` is not the identifier\'s own last part: the output column name changes', file=QP, line=n.lineno)
+                pass        # when and which alias is added: decided by the truth table
             else:
                 ctx.ob('C11.rewrite-write-set', f'foreign-write:{txt}', False,
                        f'the rewrite callback modifies `{txt}`: the pushed query must differ from the original only by the removed qualifier and the '
@@ -240,6 +219,14 @@ def run(ctx):
             ctx.ob('C11.rewrite-write-set', 'returns-none', r.value is None or (isinstance(r.value, ast.Constant) and r.value.value is None),
                    f'the rewrite callback returns `{norm(r.value) if r.value else None}`: query_traversal replaces the node with it', file=QP, line=r.lineno)
     ctx.setcount('callback_writes', nw)
+    from .C10 import rewrite_table, query_info_table
+    for label, ok, msg, line in query_info_table(ctx):
+        ctx.ob('C11.classification', label, ok, 'the single-integration gate decides on this classification: ' + msg, file=QP, line=line,
+               witness='with Sales as (select * from int1.t) select * from Sales')
+    table = rewrite_table(ctx)
+    ctx.setcount('rewrite_rows', len(table))
+    for label, ok, msg, line in table:
+        ctx.ob('C11.rewrite-table', label, ok, msg, file=QP, line=line, witness='select int1.tbl1.* from int1.tbl1')
     # walker (C13's analysis) -------------------------------------------------------------------------------------------------
     from . import C13
     sub = core.Ctx('C13', ctx.src, ctx.tier)
